@@ -12,6 +12,7 @@ import (
 	"os/exec"
 	"strconv"
 	"strings"
+	"syscall"
 	"time"
 
 	"verif/engine/sym"
@@ -84,6 +85,8 @@ func (s *Solver) start() error {
 		return err
 	}
 	cmd.Stderr = os.Stderr
+	// solvers must not outlive the explorer (a killed run would otherwise leave them spinning)
+	cmd.SysProcAttr = &syscall.SysProcAttr{Pdeathsig: syscall.SIGKILL}
 	if err := cmd.Start(); err != nil {
 		return err
 	}
